@@ -717,3 +717,7 @@ CHECKS = [
           rule="Split of 1-3 per-value branches, bufsize 1..5, flows 0..17, both copy_buf settings, consumer stopping anywhere: the interleaved pull/result trace equals "
                "'pull one block, all results of all branches for it, next block'; live input values <= bufsize + 2."),
 ]
+
+
+from .. import covfuzz  # noqa
+CHECKS.append(covfuzz.check(CHECKS, "harness.props.c02", "pipeline", quick=1000, thorough=40000))
